@@ -302,9 +302,11 @@ def _check_regen(ctx, prog, lp, tr0, ch0, ref_old, vals0, vals1, args1, res, eve
         if diff or not R.close(tr1.get_score(), tr0.get_score(), scale=ref_old.abs_sum(), rel=2e-6):
             ctx.violation("regenerate|empty-selection-changed-trace", {**d, "paths": [gfi.pstr(p) for p in diff]})
             return False
-    if not gfi.args_recorded(tr1, args1):
-        ctx.violation("regenerate|get_args-not-new-args", d)
-        return False
+    ap = gfi.args_problem(tr1, args1)
+    if ap is not None:
+        ctx.violation("regenerate|get_args-not-new-args" + ap, d)
+        if not ap.endswith("recorded-per-lane"):
+            return False
     # discard at selected addresses = old values
     ld = R.flat_leaves(_drop_none(R.to_numpy(discard))) if isinstance(discard, dict) else {}
     for p in sset:
